@@ -122,7 +122,13 @@ func opAPI3(a []*sx) string {
 		p := reflect.New(t)
 		sz := safeSize(p.Interface())
 		sb.WriteString(cls(sz) + " ")
-		buf := make([]byte, 64)
+		bl := 64
+		if strings.HasPrefix(sz, "(size ") {
+			if n, _ := strconv.Atoi(strings.TrimSuffix(strings.TrimPrefix(sz, "(size "), ")")); n > 0 && n < 1<<20 {
+				bl = n + 16
+			}
+		}
+		buf := make([]byte, bl)
 		for i := range buf {
 			buf[i] = guardByte
 		}
